@@ -1119,6 +1119,23 @@ def build(tier='quick', seed=0):
     nostd.append(decl('any', 'Point', custom={'with_text': 'check_point', 'form': 'path', 'callee': 'check_point', 'error': 'MyErr'},
                       derives=['Debug', 'TryFrom', 'FromStr'], tags=['nostd']))
 
+    # validators that every value of the inner type satisfies (a bound at the edge of the domain): still declared, so still a
+    # variant, a check and a message
+    triv = [
+        decl('string', 'String', validators=[V('len_char_min', '0', 0, 'lit'), V('len_char_max', '5', 5, 'lit')], derives=['Debug', 'TryFrom', 'FromStr'], tags=['trivial']),
+        decl('string', 'String', validators=[V('not_empty'), V('len_char_min', '0', 0, 'lit')], derives=['Debug', 'TryFrom'], tags=['trivial']),
+        decl('string', 'String', validators=[V('len_char_min', '0', 0, 'lit')], derives=['Debug', 'TryFrom', 'Deserialize'], tags=['trivial']),
+        decl('string', 'String', sanitizers=[S('trim')], validators=[V('len_char_max', '3', 3, 'lit'), V('len_char_min', '00', 0, 'lit')], derives=['Debug', 'TryFrom'], tags=['trivial']),
+        decl('int', 'u8', validators=[V('greater_or_equal', '0', 0, 'lit'), V('less', '10', 10, 'lit')], derives=['Debug', 'TryFrom', 'Arbitrary'], tags=['trivial']),
+        decl('int', 'u8', validators=[V('greater', '3', 3, 'lit'), V('less_or_equal', '255', 255, 'lit')], derives=['Debug', 'TryFrom', 'Arbitrary'], tags=['trivial']),
+        decl('int', 'i8', validators=[V('greater_or_equal', '-128', -128, 'lit'), V('less_or_equal', '127', 127, 'lit')], derives=['Debug', 'TryFrom', 'Arbitrary'], tags=['trivial']),
+        decl('int', 'u16', validators=[V('greater_or_equal', '0', 0, 'lit')], derives=['Debug', 'TryFrom', 'FromStr'], tags=['trivial']),
+        decl('int', 'i64', validators=[V('less_or_equal', '9223372036854775807', 9223372036854775807, 'lit'), V('greater', '0', 0, 'lit')], derives=['Debug', 'TryFrom'], tags=['trivial']),
+        decl('float', 'f64', validators=[V('greater_or_equal', 'f64::NEG_INFINITY', float('-inf'), 'expr'), V('less', '1.0', 1.0, 'lit')], derives=['Debug', 'TryFrom'], tags=['trivial']),
+        decl('float', 'f32', validators=[V('less_or_equal', 'f32::INFINITY', float('inf'), 'expr')], derives=['Debug', 'TryFrom'], tags=['trivial']),
+    ]
+    full += triv
+
     # validated + Default with default expressions that are not a literal (struct literal, block, string with braces): the
     # expression is spliced into generated code and, in some templates, into messages
     brace_defaults = [
